@@ -78,13 +78,17 @@ def obligations(tier):
             sysrename=["malloc", "realloc"],
             defines={"ARENA_SLOTS": 4},
             grid=[{"N": n, "ARENA_CAP": 2 * n + 12} for n in ([0, 1, 2, 3, 4] if tier == "quick" else [0, 1, 2, 3, 4, 5])],
-            unwind=lambda p: {"strlen": p["N"] + 7},
-            unwind_default=lambda p: 2 * p["N"] + 16,
+            # header = "To:" + quoted (<= 2N+4) + LF <= 2N+8 bytes; every loop of the parser is bounded by that
+            unwind=lambda p: {"strlen": p["N"] + 4, "token822_parse": 2 * p["N"] + 9, "quote_need": p["N"] + 2, "doit": p["N"] + 2,
+                              "byte_copy": (2 * p["N"] + 4) // 4 + 2, "atomcheck": p["N"] + 2,
+                              "token822_addrlist": p["N"] + 6, "token822_unquote": p["N"] + 6, "token822_reverse": p["N"] + 6,
+                              "gotaddr": p["N"] + 6},
+            unwind_default=lambda p: 2 * p["N"] + 9,
             backend="cadical", timeout=900,
             functions=["quote.c:quote2", "quote.c:quote", "quote.c:quote_need", "quote.c:doit", "token822.c:token822_parse",
                        "token822.c:token822_addrlist", "token822.c:token822_unquote", "token822.c:token822_reverse"],
             stubs=["stralloc_ready/readyplus: arena", "malloc/realloc: must not be reached (token arrays pre-sized)"],
-            assumes=["local part exactly N bytes, any values except NUL and LF; host fixed 'h.nu'"],
+            assumes=["local part exactly N bytes, any values except NUL and LF; host fixed 'h'"],
             outside=["local parts longer than the grid", "GEN_ALLOC growth arithmetic (C20 lemma)"],
             claim="'To: ' ++ quote2(local@host) ++ LF parses (token822_parse, token822_addrlist) to exactly one address whose "
                   "token822_unquote form is local@host",
